@@ -249,8 +249,13 @@ func init() {
 	defOp("RefineChain", "helper.fork", func(t *taskState, a [3]cty.Value, p [3]int) opRes {
 		b := a[0].Refine()
 		var out []cty.Value
+		rejected := false
 		step := func(i int) {
-			defer func() { recover() }()
+			defer func() {
+				if recover() != nil {
+					rejected = true // the state of a builder after a rejected call is unspecified: stop using it
+				}
+			}()
 			switch (p[0] >> (2 * uint(i))) % 4 {
 			case 0:
 				b.NotNull()
@@ -262,9 +267,11 @@ func init() {
 				b.StringPrefix(c05Prefixes[p[1]%len(c05Prefixes)])
 			}
 		}
-		for i := 0; i < 3; i++ {
+		for i := 0; i < 3 && !rejected; i++ {
 			step(i)
-			out = append(out, b.NewValue()) // snapshot, then keep using the builder
+			if !rejected {
+				out = append(out, b.NewValue()) // snapshot, then keep using the builder
+			}
 		}
 		return opRes{vals: out}
 	}, selAny)
